@@ -45,7 +45,11 @@ func (n *Node) BrowseName(ctx context.Context) (*ua.QualifiedName, error) {
 	if err != nil {
 		return nil, err
 	}
-	return v.Value().(*ua.QualifiedName), nil
+	qn, ok := v.Value().(*ua.QualifiedName)
+	if !ok {
+		return nil, ua.StatusBadTypeMismatch
+	}
+	return qn, nil
 }
 
 // Description returns the description of the node.
@@ -54,7 +58,11 @@ func (n *Node) Description(ctx context.Context) (*ua.LocalizedText, error) {
 	if err != nil {
 		return nil, err
 	}
-	return v.Value().(*ua.LocalizedText), nil
+	lt, ok := v.Value().(*ua.LocalizedText)
+	if !ok {
+		return nil, ua.StatusBadTypeMismatch
+	}
+	return lt, nil
 }
 
 // DisplayName returns the display name of the node.
@@ -63,7 +71,11 @@ func (n *Node) DisplayName(ctx context.Context) (*ua.LocalizedText, error) {
 	if err != nil {
 		return nil, err
 	}
-	return v.Value().(*ua.LocalizedText), nil
+	lt, ok := v.Value().(*ua.LocalizedText)
+	if !ok {
+		return nil, ua.StatusBadTypeMismatch
+	}
+	return lt, nil
 }
 
 // AccessLevel returns the access level of the node.
@@ -74,7 +86,11 @@ func (n *Node) AccessLevel(ctx context.Context) (ua.AccessLevelType, error) {
 	if err != nil {
 		return 0, err
 	}
-	return ua.AccessLevelType(v.Value().(uint8)), nil
+	al, ok := v.Value().(uint8)
+	if !ok {
+		return 0, ua.StatusBadTypeMismatch
+	}
+	return ua.AccessLevelType(al), nil
 }
 
 // HasAccessLevel returns true if all bits from mask are
@@ -93,7 +109,11 @@ func (n *Node) UserAccessLevel(ctx context.Context) (ua.AccessLevelType, error) 
 	if err != nil {
 		return 0, err
 	}
-	return ua.AccessLevelType(v.Value().(uint8)), nil
+	al, ok := v.Value().(uint8)
+	if !ok {
+		return 0, ua.StatusBadTypeMismatch
+	}
+	return ua.AccessLevelType(al), nil
 }
 
 // HasUserAccessLevel returns true if all bits from mask are
@@ -206,6 +226,10 @@ func (n *Node) References(ctx context.Context, refType uint32, dir ua.BrowseDire
 }
 
 func (n *Node) browseNext(ctx context.Context, results []*ua.BrowseResult) ([]*ua.ReferenceDescription, error) {
+	if len(results) == 0 {
+		// one node was browsed: the server must return one result
+		return nil, ua.StatusBadUnknownResponse
+	}
 	refs := results[0].References
 	for len(results[0].ContinuationPoint) > 0 {
 		req := &ua.BrowseNextRequest{
@@ -217,6 +241,9 @@ func (n *Node) browseNext(ctx context.Context, results []*ua.BrowseResult) ([]*u
 			return nil, err
 		}
 		results = resp.Results
+		if len(results) == 0 {
+			return nil, ua.StatusBadUnknownResponse
+		}
 		refs = append(refs, results[0].References...)
 	}
 	return refs, nil
